@@ -20,7 +20,7 @@ use futures_util::lock::{Mutex as AsyncMutex, MutexGuard};
 use futures_util::stream::{FuturesUnordered, Stream, StreamExt, once};
 use futures_util::{
     Future, FutureExt,
-    future::{BoxFuture, Shared},
+    future::{BoxFuture, Either, Shared, select},
 };
 use parking_lot::Mutex;
 #[cfg(feature = "serde")]
@@ -369,7 +369,29 @@ impl<P: ConnectionProvider> PoolState<P> {
             // error) — used to avoid double-penalizing them.
             let mut completed = SmallVec::<[IpAddr; 2]>::new();
 
-            while let Some((server, result)) = requests.next().await {
+            // Every request carries its own full per-attempt timeout, so a round that starts
+            // late would run past the end-to-end deadline: bound the round by what is left of
+            // the budget.
+            let mut budget =
+                <<P as ConnectionProvider>::RuntimeProvider as RuntimeProvider>::Timer::delay_for(
+                    deadline.saturating_duration_since(pool_now()),
+                );
+
+            loop {
+                let (server, result) = match select(requests.next(), &mut budget).await {
+                    Either::Left((Some(next), _)) => next,
+                    Either::Left((None, _)) => break,
+                    Either::Right(_) => {
+                        // Out of time: penalize the servers that have not replied.
+                        let waited = batch_start.elapsed();
+                        for abandoned in &in_flight {
+                            if !completed.contains(&abandoned.ip()) {
+                                abandoned.record_cancelled(waited);
+                            }
+                        }
+                        return Err(NetError::Timeout);
+                    }
+                };
                 completed.push(server.ip());
                 let e = match result {
                     Ok(response) if response.truncation => {
